@@ -144,7 +144,7 @@ theorem inv_casHeadOk {c s t} (ret : Bool) (h : Inv c s) (hp : s.pc t = .dCas) (
   have tlL := h.tl_live; have hdL := h.hd_live; have nextMem := h.next_mem
   simp only [HoldsTl, HoldsHd] at tlL hdL
   have preOk := h.pre_ok; have clkCs := h.clk_cs
-  inv_open h; simp only [casHeadOk]; inv_close
+  inv_open h; simp only [casHeadOk]; inv_most
   intro p u hpu
   by_cases e : p = s.hd t
   · simp only [e, if_true] at hpu ⊢
@@ -184,6 +184,6 @@ theorem inv_reclaimS {c s p} (h : Inv c s) (hl : s.life p = .removed) (hg : gpEl
   have hn : p ∉ s.chain := fun e => by have := (h.inq_iff _).mpr e; simp [hl] at this
   have tin := h.tail_in
   simp only [HoldsTl, HoldsHd] at nh1 nh2
-  inv_open h; simp only [reclaimS]; inv_dbg
+  inv_open h; simp only [reclaimS]; inv_most
 
 end UrcuVerif.Lfq
